@@ -540,6 +540,31 @@ pub fn c20(_class: &str, seed: u64, p: &Params) -> Out {
             b.qc.hash = rand_digest(&mut rng);
             differ(&mut o, "block", "parent", bd.clone(), b.digest(), String::new());
         }
+        {
+            // the same boundaries for a block that extends genesis (the all-zero parent is still a parent)
+            let g = f.block(author, round, QC::genesis(), None, payload.clone());
+            let gd = g.digest();
+            let mut b = g.clone();
+            b.qc.hash = rand_digest(&mut rng);
+            differ(&mut o, "block", "parent-genesis-vs-other", gd.clone(), b.digest(), String::new());
+            if let Some(last) = g.payload.last().cloned() {
+                let mut b = g.clone();
+                b.payload.pop();
+                b.qc = QC { hash: last, round: round.saturating_sub(1), votes: vec![] };
+                differ(&mut o, "block", "payload-parent-boundary-on-genesis", gd.clone(), b.digest(), String::new());
+            }
+            let mut b = g.clone();
+            b.payload.push(Digest::default());
+            differ(&mut o, "block", "payload-extended-by-zero-digest-on-genesis", gd.clone(), b.digest(), String::new());
+            // an empty block on genesis vs. a vote whose "block hash" is the author's key bytes
+            let e = f.block(author, round, QC::genesis(), None, vec![]);
+            let fake = Vote { hash: Digest(e.author.0), round, author: e.author, signature: e.signature.clone() };
+            o.cases += 1;
+            o.class("cross-kind/empty-genesis-block-vs-vote".into());
+            if e.digest() == fake.digest() {
+                o.report.violate("C20", "block-and-vote-digests-coincide", "an empty block extending genesis and a vote for (author key bytes, same round) have the same digest: the proposal signature is a valid vote signature".to_string(), vec![]);
+            }
+        }
         // Votes / QCs
         let h = rand_digest(&mut rng);
         let v = f.vote(0, &h, round);
